@@ -315,6 +315,9 @@ func diffResults(got, want *Result, absEps float64) string {
 		}
 		return fmt.Sprintf("one side failed: server=%s reference=%s", got.String(), want.String())
 	}
+	if len(got.Series) == 0 && len(want.Series) == 0 {
+		return "" // an empty result is an empty result (the server labels an empty matrix as "vector")
+	}
 	if got.Type != want.Type {
 		return fmt.Sprintf("result type %q, reference %q", got.Type, want.Type)
 	}
